@@ -168,6 +168,8 @@ pub struct SimCore {
     progress: Cell<u64>,
     idle_ticks: Cell<u32>,
     pub probes: RefCell<BTreeMap<&'static str, u64>>,
+    /// Virtual time of every `dispatch` probe (hook H5: an attempt handed to the executor).
+    pub dispatch_times: RefCell<Vec<u64>>,
     pub stats: RefCell<SchedStats>,
     /// Digest of every scheduling decision (replay determinism check).
     pub sched_digest: Cell<u64>,
@@ -195,6 +197,7 @@ impl SimCore {
             progress: Cell::new(0),
             idle_ticks: Cell::new(0),
             probes: RefCell::new(BTreeMap::new()),
+            dispatch_times: RefCell::new(Vec::new()),
             stats: RefCell::new(SchedStats::default()),
             sched_digest: Cell::new(FNV_INIT),
             sched_trace: RefCell::new(Vec::new()),
@@ -232,6 +235,10 @@ impl SimCore {
 
     pub fn probe(&self, name: &'static str) {
         *self.probes.borrow_mut().entry(name).or_insert(0) += 1;
+        if name == "dispatch" {
+            let t = self.now_ns();
+            self.dispatch_times.borrow_mut().push(t);
+        }
     }
 
     fn decision(&self, s: impl FnOnce() -> String, tag: u8, val: u64) {
